@@ -80,6 +80,32 @@ class AuditDirective:
             yield r
 
 
+class SeqScalar:
+    """A scalar implementation with per-INSTANCE state: every engine must get its own instance, also when the class is
+    registered for several schema names by stacked decorators."""
+
+    def __init__(self):
+        self.n = 0
+
+    def coerce_output(self, v):
+        self.n += 1
+        return "%s#%d" % (v, self.n)
+
+    def coerce_input(self, v):
+        return v
+
+    def parse_literal(self, ast):
+        return getattr(ast, "value", None)
+
+
+def register_seq_scalar(names):
+    """@Scalar("VtSeq", schema_name=n1) @Scalar("VtSeq", schema_name=n2) ... class SeqScalar - decorators stacked"""
+    from tartiflette import Scalar
+    cls = SeqScalar
+    for n in names:
+        cls = Scalar("VtSeq", schema_name=n)(cls)
+
+
 def gen_bundles(rng):
     """Returns list of (label, model).  All derived from one base so names overlap."""
     o = smodel.GenOpts(n_objects=(2, 4), n_interfaces=(1, 2), n_unions=(0, 1), n_scalars=(1, 1), p_mutation=0.7,
@@ -181,6 +207,7 @@ async def answer(bundle, s, label, probes, sub):
     w.label, w.marks = label, []
     r = await e.execute("{ vtModField }", context={"world": w})
     out.append({"module_field": r, "marks": w.marks})
+    out.append({"stateful_scalar": [await e.execute("{ vtSeq }", context={"world": w}) for _ in range(3)]})
     # introspection root fields under aliases and at positions that differ from bundle to bundle, and documents the
     # validation rules refuse (their errors carry rule-level extensions): errors must be this engine's own
     pad = " " * (1 + len(label) + sum(map(ord, label)) % 7)
@@ -255,6 +282,7 @@ async def alone_main(seed, index, variant):
     label, m = bundles[variant]
     b = make_bundle(label, m)
     register(b)
+    register_seq_scalar([b.name])
     await b.cook()
     ans, anomalies = await answer(b, m, label, *batteries[variant])
     sys.stdout.write("VT-ANSWER " + json.dumps({"answers": ans, "anomalies": anomalies}) + "\n")
@@ -277,6 +305,19 @@ async def run_alone(seed, index, variant):
         if line.startswith("VT-ANSWER "):
             return json.loads(line[len("VT-ANSWER "):])
     raise RuntimeError("alone subprocess gave no answer: %s" % err.decode("utf-8", "replace")[-1500:])
+
+
+async def short_lived_engine(st):
+    """An engine built through create_engine for yet another schema name comes and goes (garbage collection included)."""
+    from tartiflette import create_engine
+    import gc
+    tmpname = boot.fresh_schema_name("c17tmp")
+    tmp = await create_engine("type Query { a: Int }", schema_name=tmpname)
+    await tmp.execute("{ a }")
+    del tmp
+    gc.collect()
+    boot.forget_schema(tmpname)
+    st.inc("short_lived_engines_collected")
 
 
 async def run_case(ctx, rng, index):
@@ -309,10 +350,42 @@ async def run_case(ctx, rng, index):
                 # constructed under ANOTHER bundle's schema name, cooked under its own: cook(schema_name=) decides
                 bs[v].ctor_name = bs[rng2.choice([u for u in range(k) if u != v])].name
                 st.inc("bundles_constructed_under_a_foreign_name")
-        c2 = dict(case, registration_order=list(reg_order), cook_order=cook_order, interleaved=interleave)
+        mode = rng2.choice(["sequential", "sequential", "concurrent+failing"])
+        default_v = rng2.choice(range(k)) if rng2.random() < 0.3 else None
+        if default_v is not None:
+            # one bundle lives under the schema name every API call uses when none is given
+            boot.forget_schema("default")
+            bs[default_v].name = "default"
+            for v in range(k):
+                if getattr(bs[v], "ctor_name", None) == "default" or v == default_v:
+                    bs[v].ctor_name = None
+            st.inc("orderings_with_a_default_named_bundle")
+        c2 = dict(case, registration_order=list(reg_order), cook_order=cook_order, interleaved=interleave, cooking=mode,
+                  default_named=default_v)
         try:
             cooked = []
-            if interleave:
+            # one class registered as scalar implementation for every co-resident name by stacked decorators
+            register_seq_scalar([bs[v].name for v in reg_order])
+            if mode == "concurrent+failing":
+                # all cooks in flight at once (the user module's bake suspends), together with an engine whose SDL is refused:
+                # a failing cook must leave the registrations of the other names alone
+                for v in reg_order:
+                    register(bs[v])
+                if rng2.random() < 0.5:
+                    await short_lived_engine(st)
+                broken = harness.Bundle(bundles[0][1], sdl="type Query { a: NoSuchType_ }", name_prefix="c17broken",
+                                        modules=[{"name": "vt.c17mod", "config": {"root": "Query"}}])
+                register_seq_scalar([broken.name])
+                order = [bs[v].cook() for v in cook_order]
+                order.insert(rng2.randrange(len(order) + 1), broken.cook())
+                res = await asyncio.gather(*order, return_exceptions=True)
+                broken.dispose()
+                bad = [r for r in res if isinstance(r, BaseException)]
+                st.inc("concurrent_cooks_with_a_failing_one")
+                if len(bad) != 1:
+                    raise (bad[0] if len(bad) > 1 else RuntimeError("the refused SDL was accepted"))
+                cooked = list(cook_order)
+            elif interleave:
                 # register A, cook A, register B, cook B ... in cook order
                 for v in cook_order:
                     fps = {u: registry_fingerprint(bs[u].name) for u in cooked}
@@ -325,6 +398,8 @@ async def run_case(ctx, rng, index):
             else:
                 for v in reg_order:
                     register(bs[v])
+                if rng2.random() < 0.5:
+                    await short_lived_engine(st)
                 for v in cook_order:
                     fps = {u: registry_fingerprint(bs[u].name) for u in cooked}
                     await bs[v].cook()
